@@ -486,6 +486,20 @@ func (r *tokReader) hex() ([]byte, error) {
 	r.inputs = append(r.inputs, guardedBuf{full: full, orig: append([]byte{}, full...)})
 	return full[:len(b0)], nil
 }
+// guard hands out a copy of b the way hex() does (exact capacity in the first run, guarded in the second), for inputs that do not come
+// from a hex token
+func (r *tokReader) guard(b0 []byte) []byte {
+	if r.exact {
+		return append(make([]byte, 0, len(b0)), b0...)
+	}
+	full := make([]byte, len(b0)+16)
+	copy(full, b0)
+	for i := len(b0); i < len(full); i++ {
+		full[i] = 0x5a
+	}
+	r.inputs = append(r.inputs, guardedBuf{full: full, orig: append([]byte{}, full...)})
+	return full[:len(b0)]
+}
 func (r *tokReader) boolean() (bool, error) {
 	v, err := r.u64()
 	return v != 0, err
